@@ -20,7 +20,8 @@ RULE = ('matrix: every (operator, left, right) over the 14 binary operators and 
         'with every alternative, so all leaf valuations are executed; result, order of leaf evaluations and number of tape '
         'reads are compared with the reference evaluator on the same tape (state = decision-tree node, transition = tape '
         'decision, trace = complete execution); order: the same explorer over all 14 binary and both unary operators, group, if/1..3 and '
-        'host/script/library calls with 1..3 arguments as node kinds (tape over {false, 2, \'a\', 0}; where an operator result is '
+        'host/script/library calls with 1..3 arguments as node kinds, leaves tt(i) or a read of the global gc that every tt call '
+        'increments (tape over {false, 2, \'a\', 0}; where an operator result is '
         'UNSPECIFIED only order and number of leaf evaluations are compared); alias: every expression built-in x every argument tuple of arity <= 3 over a '
         '12-value pool against the library function it is documented to alias; shadow: a global or local binding wins over '
         'every built-in. Non-trivial: a matrix cell whose result is not null; a tree where some valuation leaves a leaf '
